@@ -372,6 +372,13 @@ func (e *Env) runC10Once(c C10Case) *stat.Failure {
 			}
 			byID[resp.ReqID] = append(byID[resp.ReqID], resp)
 		}
+		// a request answered more than once cannot be explained by a lost datagram or a slow
+		// machine: report it first (ids are unique per connection in a case)
+		for i, r := range c.Reqs {
+			if r.Conn == ci && model[i].reply && len(byID[r.ReqID]) > 1 {
+				return stat.Failf("duplicate-reply", "request #%d (conn %d, id %d, version %d, %s %s) received %d replies, exactly one expected", i, ci, r.ReqID, r.Version, r.Kind, r.Fn, len(byID[r.ReqID]))
+			}
+		}
 		for i, r := range c.Reqs {
 			if r.Conn != ci {
 				continue
@@ -516,9 +523,11 @@ func (e *Env) RunC10Case(c C10Case, st *stat.Stats) *stat.Failure {
 	if f == nil {
 		return nil
 	}
-	if c.Scenario == "mixed" && c.Proto == "tcp" {
-		return f
+	if f.Sig == "duplicate-reply" || f.Sig == "oneway-answered" {
+		return f // a reply too many is never an artefact of timing or datagram loss
 	}
+	// every other complaint must reproduce twice more (a reply that merely arrived after the
+	// grace period on a busy machine does not; a server that answers wrongly does)
 	for i := 0; i < 2; i++ {
 		time.Sleep(300 * time.Millisecond)
 		if g := e.runC10Once(c); g == nil {
